@@ -185,10 +185,11 @@ def cred_of(o, pre):
 def kind_of(o):
     k = o["k"]
     if k == "hs":
+        sh = "+shared" if o["lc"] >= 4 else ""     # credential borrowed from another thread's logical client
         if o["mode"] != "normal":
-            return "hs:%s:%s" % (o["lt"], o["mode"])
+            return "hs:%s:%s%s" % (o["lt"], o["mode"], sh)
         if o["res"]:
-            return "hs:%s:resumed" % o["lt"]
+            return "hs:%s:resumed%s" % (o["lt"], sh)
         _, c = cred_of(o, "off")
         if c != "0":
             return "hs:%s:%s" % (o["lt"], "fallback-full" if o["wire"] else "full-not-offered")
@@ -276,15 +277,16 @@ def check_history(h, res, replay, pairs, samples):
         if o["srv_err"] and o["srv_sid"] != "0":
             invalid.setdefault(o["srv_sid"], []).append(o)
     id_ops = [o for o in hs if o["lt"] in ("id12", "id11")]
-    last_on_lc = {}
+    uses = {}       # session id -> operations whose server session held that cache entry (any thread: credentials are also borrowed)
+    for o in hs:
+        if o["srv_sid"] != "0":
+            uses.setdefault(("id", o["srv_sid"]), []).append(o)
 
     for o in hs:
         lt, mode = o["lt"], o["mode"]
         st("hs_ops", 1)
         st("hs_mode_" + mode, 1)
         f, c = cred_of(o, "off")
-        prev = last_on_lc.get((o["th"], o["lc"]))
-        last_on_lc[(o["th"], o["lc"])] = o
         # ---- oracle 2
         if mode == "normal":
             if not o["done"]:
@@ -335,7 +337,11 @@ def check_history(h, res, replay, pairs, samples):
                     if d["r"] < o["c"]:
                         V("c20:%s-resumed-after-key-delete" % lt, "ticket key deleted by " + brief(d) + " which returned before " + brief(o) + " started")
                         break
-            if len(samples) < 6 and x["th"] == o["th"]:
+            if o["lc"] >= 4:
+                st("resumed_with_borrowed_credential", 1)
+                if any(q is not o and q["th"] != o["th"] and q["c"] < o["r"] and q["r"] > o["c"] and q["res"] and cred_of(q, "off") == (f, c) for q in hs):
+                    st("same_credential_resumed_concurrently", 1)
+            if len(samples) < 6 and (x["th"] == o["th"]) == (len(samples) % 2 == 0):
                 mid = [q for q in ops if q["c"] < o["r"] and q["r"] > x["c"] and q["th"] != o["th"]][:3]
                 samples.append("resumption explained: issuer {%s} ... overlapping {%s} ... resumed {%s}" % (brief(x), "; ".join(brief(q) for q in mid), brief(o)))
         elif c != "0" and not o["wire"]:
@@ -348,7 +354,8 @@ def check_history(h, res, replay, pairs, samples):
                 if any(z["c"] < o["r"] for z in invalid.get(c, [])):
                     why = "invalidated"
                 else:
-                    w0 = prev["c"] if prev is not None else 0
+                    # the entry went to the tail of the free list when its last user finished: window starts at that user's call
+                    w0 = max([q["c"] for q in uses.get((f, c), []) if q is not o and q["c"] < o["c"]] or [0])
                     consumers = sum(1 for q in id_ops if q is not o and q["c"] < o["r"] and q["r"] > w0)
                     if consumers >= TABLE - nworkers - 1:
                         why = "evictable"
@@ -403,10 +410,21 @@ def check_history(h, res, replay, pairs, samples):
 
 
 # ------------------------------------------------------------------------------------------ process runs
+STALL_WINDOW, STALL_CPU = 20.0, 0.8     # seconds of wall clock, seconds of process CPU time
+
+
+def proc_cpu(pid):
+    try:
+        f = open("/proc/%d/stat" % pid).read().rsplit(")", 1)[1].split()
+        return (int(f[11]) + int(f[12])) / float(os.sysconf("SC_CLK_TCK"))
+    except Exception:  # noqa
+        return None
+
+
 def gdb_stacks(pid):
     try:
-        p = subprocess.run(["gdb", "-batch", "-ex", "thread apply all bt 12", "-p", str(pid)], capture_output=True, text=True, timeout=60)
-        return (p.stdout or "")[-12000:]
+        p = subprocess.run(["gdb", "-batch", "-ex", "thread apply all bt 40", "-p", str(pid)], capture_output=True, text=True, timeout=60)
+        return (p.stdout or "")[-30000:]
     except Exception as e:  # noqa
         return "gdb failed: %r" % (e,)
 
@@ -419,6 +437,9 @@ class Run:
         self.proc = None
         self.stacks = None
         self.timed_out = False
+        self.stalled = False
+        self.cpu = []
+        self.last_sample = 0.0
 
     def weight(self):
         return self.threads
@@ -461,7 +482,14 @@ def execute(runs, binary, crlarg, keydir, tool, timeout_fn, capacity):
         now = time.time()
         for r in list(running):
             rc = r.proc.poll()
-            if rc is None and now > r.deadline:
+            if rc is None and now - r.last_sample >= 2.0:
+                # progress watchdog: a live run burns at least one core; a deadlocked one only the pollers' crumbs
+                r.last_sample = now
+                r.cpu.append((now, proc_cpu(r.proc.pid)))
+                old = [c for t, c in r.cpu if t <= now - STALL_WINDOW]
+                if old and r.cpu[-1][1] is not None and old[-1] is not None and r.cpu[-1][1] - old[-1] < STALL_CPU:
+                    r.stalled = True
+            if rc is None and (now > r.deadline or r.stalled):
                 r.timed_out = True
                 r.stacks = gdb_stacks(r.proc.pid)
                 r.proc.kill()
@@ -477,13 +505,11 @@ def execute(runs, binary, crlarg, keydir, tool, timeout_fn, capacity):
 
 
 def blocked_in_locks(stacks, nthreads):
-    """True when gdb shows every worker thread waiting for a mutex (a real deadlock, not slowness)."""
+    """True when gdb shows every remaining worker thread waiting for a mutex (a real deadlock, not slowness)."""
     if not stacks:
         return False
-    thr = re.split(r"\nThread \d+ ", stacks)
-    waiting = sum(1 for t in thr if "__lll_lock_wait" in t or "pthread_mutex_lock" in t.split("\n#2")[0])
-    workers = sum(1 for t in thr if "worker_main" in t)
-    return workers > 0 and all(("__lll_lock_wait" in t or "futex_wait" in t and "pthread_mutex_lock" in t) for t in thr if "worker_main" in t) and waiting >= 2
+    thr = [t for t in re.split(r"\nThread \d+ ", stacks) if "worker_main" in t]
+    return len(thr) > 0 and all(("psLockMutex" in t or "pthread_mutex_lock" in t) for t in thr)
 
 
 def run(ctx):
@@ -508,15 +534,16 @@ def run(ctx):
     else:
         cfg = [(derive(ctx.seed, i), t, k) for i, (t, k) in enumerate(plan(ctx.tier))]
     runs = [Run(i, s, t, k, outdir) for i, (s, t, k) in enumerate(cfg)]
-    timeout_fn = lambda r: 120 + 1.5 * r.ops + 4 * r.threads
+    timeout_fn = lambda r: 300 + 3 * r.ops + 8 * r.threads      # generous: the progress watchdog catches real deadlocks in ~20 s
     done = execute(runs, binary, crlarg, keydir, "tsan", timeout_fn, vflib.NCPU)
 
     # ---- watchdog: re-run once, then deadlock
+    why = lambda r: ("made no progress (< %.1fs CPU in %.0fs)" % (STALL_CPU, STALL_WINDOW)) if r.stalled else ("did not finish within %.0fs" % timeout_fn(r))
     retry = []
     for r in done:
         if r.timed_out:
             if blocked_in_locks(r.stacks, r.threads):
-                res.add_violation("c20:deadlock", "run %s did not finish within %.0fs; every worker waits for a mutex:\n%s" % (r.replay, timeout_fn(r), r.stacks), r.replay)
+                res.add_violation("c20:deadlock", "run %s %s; every worker waits for a mutex:\n%s" % (r.replay, why(r), r.stacks), r.replay)
             else:
                 retry.append(Run(r.idx, r.seed, r.threads, r.ops, outdir, attempt=1))
                 retry[-1].first_stacks = r.stacks
@@ -524,8 +551,8 @@ def run(ctx):
         for r2 in execute(retry, binary, crlarg, keydir, "tsan", timeout_fn, vflib.NCPU):
             res.add_stat("watchdog_reruns", 1)
             if r2.timed_out:
-                res.add_violation("c20:deadlock", "run %s exceeded the watchdog (%.0fs) twice.\nfirst attempt:\n%s\nsecond attempt:\n%s" % (
-                    r2.replay, timeout_fn(r2), r2.first_stacks, r2.stacks), r2.replay)
+                res.add_violation("c20:deadlock", "run %s hit the watchdog twice (%s).\nfirst attempt:\n%s\nsecond attempt:\n%s" % (
+                    r2.replay, why(r2), r2.first_stacks, r2.stacks), r2.replay)
             else:
                 res.incon.append("run %s exceeded the watchdog once and finished on the re-run (%.1fs); stacks of the first attempt:\n%s" % (r2.replay, r2.wall, (r2.first_stacks or "")[-1500:]))
                 done.append(r2)
